@@ -47,7 +47,7 @@ pub fn run(ctx: &Ctx) {
          with an independent tokenizer, every key generated so far (and every initial key) is present, its private key unlocks under its own password (reference unlock) to the key whose public \
          key is listed; at the end encrypt/decrypt between pairs of names with the real binary. distinct_nontrivial counts distinct (initial state, step index) observations",
     );
-    let histories = ctx.tier.pick(10, 80);
+    let histories = ctx.tier.pick(18, 90);
     par_for(histories, crate::util::ncpu(), |h| {
         let mut rng = Rng::fork(ctx.seed, &format!("C14-{}", h));
         let wd = WorkDir::new("c14");
@@ -61,16 +61,27 @@ pub fn run(ctx: &Ctx) {
             ("keyring with comments and blank lines", Some(format!("# my keys\n\n{}\n# end of file\n\n", init0.entry(true))), vec![&init0]),
             ("two-key keyring, second entry public only", Some(format!("{}\n{}", init0.entry(true), init1.entry(false))), vec![&init0, &init1]),
         ];
+        // large keyrings: many public-only entries (> 8 KiB, > 64 KiB) and a long comment block
+        let many = |n: usize, rng: &mut Rng| -> String { (0..n).map(|i| format!("[Key]\nName = contact-{}\nPublicKey = {}\n", i, refspec::encode_pk(&refspec::pubkey_of(&rng.arr32())))).collect::<Vec<_>>().join("\n") };
+        let big9k = format!("{}\n{}", init0.entry(true), many(110, &mut rng));
+        let big70k = format!("{}\n{}", init0.entry(true), many(ctx.tier.pick(300, 900), &mut rng));
+        let comments = format!("{}\n{}", init0.entry(true), "# a line of commentary that makes the file longer than one buffer ........................\n".repeat(120));
+        let mut states = states;
+        states.push(("keyring larger than 8 KiB (110 contacts)", Some(big9k), vec![&init0]));
+        states.push(("keyring with ~10 KiB of trailing comments", Some(comments), vec![&init0]));
+        states.push(("keyring larger than 24 KiB (hundreds of contacts)", Some(big70k), vec![&init0]));
         let (sname, init, init_ids) = &states[h % states.len()];
         let f = wd.file("keyring.txt");
         if let Some(text) = init {
             std::fs::write(&f, text).unwrap();
         }
-        let nsteps = 1 + (h / states.len()) % 6;
+        // thorough: one history in five is long (45 generations cross the 8 KiB mark from an empty file)
+        let nsteps = if ctx.tier == crate::ctx::Tier::Thorough && h % 5 == 4 { 45 } else { 1 + (h / states.len()) % 6 };
         let pw_pool = ["", "simple", "p\u{e4}ss w\u{f6}rd \u{2713}", "a much longer password with spaces and symbols !@#$%^&*()", "simple"];
         let steps: Vec<Step> = (0..nsteps).map(|i| Step { name: format!("gen-{}-{} {}", h, i, ["x", "y z", "\u{e9}"][i % 3]), password: pw_pool[(h + i) % pw_pool.len()].to_string() }).collect();
         // (name, password) of every private key that must be usable
         let mut expect: Vec<(String, Option<String>)> = init_ids.iter().map(|i| (i.name.clone(), if init.as_ref().map(|t| t.contains(&i.locked)).unwrap_or(false) { Some(i.password.clone()) } else { None })).collect();
+        let extra_initial_sections = init.as_ref().map(|t| ref_parse(t).len()).unwrap_or(0) - init_ids.len();
         let mut ok_history = true;
         for (si, st) in steps.iter().enumerate() {
             let before = std::fs::read(&f).ok();
@@ -80,7 +91,7 @@ pub fn run(ctx: &Ctx) {
             let after_text = String::from_utf8_lossy(&after).into_owned();
             let detail = || {
                 json!({"initial_state": sname, "step": si, "steps_in_history": nsteps, "name": st.name, "password": st.password, "exit": o.exit.describe(), "stderr": o.stderr_s(),
-                       "file_before": before.as_ref().map(|b| String::from_utf8_lossy(b).into_owned()), "file_after": after_text})
+                       "file_before_len": before.as_ref().map(|b| b.len()), "file_after_len": after.len(), "file_before_tail": before.as_ref().map(|b| String::from_utf8_lossy(&b[b.len().saturating_sub(400)..]).into_owned()), "file_after_tail": after_text.chars().rev().take(700).collect::<String>().chars().rev().collect::<String>()})
             };
             if o.exit == Exit::Timeout {
                 ctx.inconclusive("C14: child timed out");
@@ -93,7 +104,7 @@ pub fn run(ctx: &Ctx) {
                 break;
             }
             expect.push((st.name.clone(), Some(st.password.clone())));
-            let state_key = if before.is_none() { "absent" } else if before.as_ref().unwrap().is_empty() { "empty" } else { "existing-keyring" };
+                let state_key = if before.is_none() { "absent" } else if before.as_ref().unwrap().is_empty() { "empty" } else if before.as_ref().unwrap().len() > 8192 { "existing-keyring-over-8KiB" } else { "existing-keyring" };
             // 1. previous content is a byte prefix of the new content
             if let Some(b) = &before {
                 if after.len() < b.len() || after[..b.len()] != b[..] {
@@ -160,7 +171,7 @@ pub fn run(ctx: &Ctx) {
                 ok_history = false;
                 break;
             }
-            if secs.len() != expect.len() {
+            if secs.len() != expect.len() + extra_initial_sections {
                 ctx.violation("C14:unexpected-number-of-entries", detail());
                 ok_history = false;
                 break;
@@ -197,6 +208,7 @@ pub fn run(ctx: &Ctx) {
         }
     });
     ctx.require("step into existing-keyring", 10);
+    ctx.require("step into existing-keyring-over-8KiB", 3);
     ctx.require("step into absent", 1);
     ctx.require("step into empty", 1);
     ctx.require("end of history", 4);
